@@ -23,6 +23,27 @@ chk("C15", "model_checking", "E1-history-explorer",
     "Every admissible submission order of the bounded A/V history set is executed; per-track offsets must increase with sample number and, for non-reordered streams, the global storage order must equal the timestamp merge with video first on ties.",
     READER, "DESIGN.md §4 C15")
 
+chk("C02", "model_checking", "E1-history-explorer + E5-fragment-search",
+    "bounded exhaustive enumeration of histories (progressive) and of write/flush interleavings (fragmented); strict recursive box tiling by an independent reader",
+    "Every byte stream produced by the bounded history spaces (progressive files of the C01 set including the degenerate histories; init and media segments of the C10 search) is parsed by a strict reader that demands exact tiling of every container, the mandatory box hierarchy per track and mutually consistent table counts.",
+    READER, "DESIGN.md §4 C02")
+chk("C03", "model_checking", "E1-history-explorer",
+    "bounded exhaustive enumeration of timestamp sequences over a step alphabet on the real muxer; exact integer timing oracle",
+    "Every video DTS sequence / composition-offset vector / audio PTS sequence over the step alphabets up to the stated length is executed; stts, ctts and mdhd are compared with differences of exactly rounded absolute timestamps (computed in integer arithmetic from the f64 bits). Two long single traces cover the no-drift clause.",
+    READER + " Tie-sensitive timestamps (x.5 ticks) are excluded and counted.", "DESIGN.md §4 C03")
+chk("C04", "model_checking", "contract-automaton lock-step explorer",
+    "explicit enumeration of all call histories up to a depth bound over a relative-symbol alphabet, reference contract model stepped in lock-step with the real muxer",
+    "All call histories over a 34-symbol alphabet (one symbol per guard outcome, relative to the current state) to the stated depth, for 4 codecs x {AAC, Opus, none}: every call must succeed iff the executable transcription of the documented contract finds no violated precondition, and every error must name a precondition that this call violated. Every explored trace is an implementation execution, so model and code are bound by construction.",
+    "Trusted base: the contract model in harness/oracle/src/model.rs (transcribed from docs/contract.md and the property statement) and the reference ADTS/Opus/Annex-B walkers.", "DESIGN.md §4 C04")
+chk("C05", "model_checking", "contract-automaton lock-step explorer",
+    "explicit enumeration of all call histories up to a depth bound; differential comparison of each history with its rejected calls deleted",
+    "Every history of the C04 space that contains a rejected call is executed twice on the real muxer, with and without the rejected calls; later decisions, statistics and every output byte must be identical. No hand-written expectation.",
+    "Trusted base: determinism of one execution (checked by C17).", "DESIGN.md §4 C05")
+chk("C06", "model_checking", "contract-automaton lock-step explorer",
+    "explicit enumeration of all call histories incl. all five finish entry points up to a depth bound; recording sink + lifecycle/statistics oracle",
+    "All histories over an alphabet containing the five finish entry points at any position: a recording sink stamps every write with the API call in progress; nothing may be written outside the first successful finish, everything afterwards must fail, and the statistics must equal accepted frame counts, sink bytes and the largest presentation end time within one tick.",
+    READER, "DESIGN.md §4 C06")
+
 NOT_YET = {
 }
 
